@@ -1244,21 +1244,23 @@ type typeParserParamNode struct {
 }
 
 func (t *typeParser) parse() typeParserResult {
+	// treat anything that cannot be understood as a custom type
+	custom := typeParserResult{
+		isComposite: false,
+		types: []TypeInfo{
+			NativeType{
+				typ:    TypeCustom,
+				custom: t.input,
+			},
+		},
+		reversed:    []bool{false},
+		collections: nil,
+	}
+
 	// parse the AST
 	ast, ok := t.parseClassNode()
 	if !ok {
-		// treat this is a custom type
-		return typeParserResult{
-			isComposite: false,
-			types: []TypeInfo{
-				NativeType{
-					typ:    TypeCustom,
-					custom: t.input,
-				},
-			},
-			reversed:    []bool{false},
-			collections: nil,
-		}
+		return custom
 	}
 
 	// interpret the AST
@@ -1293,6 +1295,11 @@ func (t *typeParser) parse() typeParserResult {
 				}
 				collections[name] = param.class.asTypeInfo()
 			}
+		}
+
+		if count == 0 {
+			// a composite of nothing but collections: callers rely on at least one type
+			return custom
 		}
 
 		types := make([]TypeInfo, count)
